@@ -380,6 +380,16 @@ def check(ctx: Ctx) -> str:
     for p, sk in res["visit_NSRef"]:
         ctx.check("[" in sk.text and "." not in sk.text.strip(), "nsref:item", "compiler:CodeGenerator.visit_NSRef", "item store", f"visit_NSRef must emit ref[attr], got {sk.text.strip()}", "src/jinja2/compiler.py")
     ns = repo.cls("utils:Namespace")
+    # the check above keeps dotted assignments on Namespace objects only; that protects the
+    # render data only if a namespace stores into a dict of its own: `namespace(d)` copies d
+    ni = ns.methods.get("__init__")
+    ctx.need(ni is not None, "Namespace.__init__ not found")
+    st_ = [a for a in ast.walk(ni) if isinstance(a, ast.Assign) and any(isinstance(t_, ast.Attribute) and t_.attr in ("__attrs", "_Namespace__attrs") for t_ in a.targets)]
+    ctx.need(bool(st_), "Namespace.__init__ no longer assigns its attribute dict")
+    for a in st_:
+        ctx.check(astq.fresh_container(ni, a.value), f"Namespace.__init__:private:{ast.unparse(a.value)[:30]}", "utils:Namespace.__init__", f"attribute dict `{ast.unparse(a.value)[:50]}` may be the caller's object",
+                  f"Namespace.__init__ stores `{ast.unparse(a.value)}` as its attribute dict: unless that is a new dict on every path, `{{% set ns = namespace(d) %}}{{% set ns.x = 1 %}}` passes the Namespace check and writes into the dict `d` of the render data (also in the immutable sandbox)",
+                  f"src/jinja2/utils.py:{a.lineno}")
     ctx.check("__setitem__" in ns.methods and "self.__attrs[name] = value" in ast.unparse(ns.methods["__setitem__"]).replace("_Namespace__attrs", "__attrs"), "Namespace.__setitem__", "utils:Namespace", "item store writes attrs", "Namespace.__setitem__ must store into the namespace's attribute dict", ns.loc())
 
     ctx.rule("R6", "missing never escapes: visit_Name writes the bare reference for a load only when it is a declared, already bound parameter; every other load is `undefined(name=...) if ref is missing else ref`; enter_frame initialises every load target")
